@@ -317,7 +317,12 @@ def run_miri(outdir, n):
         lines = [l.strip() for l in f if l.startswith("x-text ") or l.startswith("x-bin ")]
     # blank runs / short adversarial shapes first (they sit near the scanners' window gates), then a spread
     short = [l for l in lines if len(l) < 64]
-    step = max(1, len(short) // (n * 2 // 3 + 1))
+    # windows of exactly 7..9 / 15..17 blank bytes (plus a short tail) sit on the scanners' size gates
+    gate = re.compile(r"^x-text (?:[0-9a-f]{0,10})?((?:09|0a|20){7,9}|(?:09|0a|20){15,17})(?:[0-9a-f]{0,10})?$")
+    for l in short:
+        if gate.match(l) and l not in seen and len(sel) < n // 2:
+            seen.add(l); sel.append(l)
+    step = max(1, len(short) // (n // 3 + 1))
     for l in short[::step]:
         if l not in seen:
             seen.add(l); sel.append(l)
